@@ -26,9 +26,13 @@ static const char* FNAME = "CASE.UNRST";
 alignas(16) static unsigned char out_storage[sizeof(EclOutput)];
 alignas(16) static unsigned char rst_storage[sizeof(OutputStream::Restart)];
 // one report step: SEQNUM (1 int), INTEHEAD (3 ints), PRESSURE (2 doubles)  => 36 + 36 + 40 = 112 bytes
-static const long STEP_BYTES = (24 + 12) + (24 + 20) + (24 + 24);
+#ifndef SEQONLY
+#define SEQONLY 0            // 1: a report step consists of its SEQNUM record only
+#endif
+static const long STEP_BYTES = SEQONLY ? (24 + 12) : (24 + 12) + (24 + 20) + (24 + 24);
 static void write_step(EclOutput& out, int seq, int tag) {
     out.write(std::string("SEQNUM"), std::vector<int>{ seq });
+    if (SEQONLY) return;
     out.write(std::string("INTEHEAD"), std::vector<int>{ tag, seq, 7 });
     out.write(std::string("PRESSURE"), std::vector<double>{ 1.5 * tag, 2.5 });
 }
@@ -58,8 +62,7 @@ extern "C" void h_rewind(void) {
     OutputStream::Restart* w = reinterpret_cast<OutputStream::Restart*>(rst_storage);
     w->openUnified(std::string(FNAME), false, s);
     w->stream_->write(std::string("SEQNUM"), std::vector<int>{ s });
-    w->write(std::string("INTEHEAD"), std::vector<int>{ 99, s, 7 });
-    w->write(std::string("PRESSURE"), std::vector<double>{ 4.5, 2.5 });
+    if (!SEQONLY) { w->write(std::string("INTEHEAD"), std::vector<int>{ 99, s, 7 }); w->write(std::string("PRESSURE"), std::vector<double>{ 4.5, 2.5 }); }
     w->stream_->flushStream();
     CHECK(verif_memfile_size(1) == (keep + 1) * STEP_BYTES);                            // surviving steps + the new one, nothing else
     for (long i = 0; i < keep * STEP_BYTES; ++i) CHECK(verif_memfile_byte(1, i) == before[i]);   // earlier steps byte for byte
@@ -68,8 +71,10 @@ extern "C" void h_rewind(void) {
     CHECK(steps.size() == (size_t) keep + 1);
     for (int i = 0; i < keep; ++i) CHECK(steps[i] == seq[i]);
     CHECK(steps[keep] == s);                                                           // the step just written is last; strictly increasing
-    const auto& ih = again.getRestartData<int>("INTEHEAD", s, 0); CHECK(ih.size() == 3 && ih[0] == 99 && ih[1] == s);
-    if (keep > 0) { const auto& i0 = again.getRestartData<int>("INTEHEAD", seq[0], 0); CHECK(i0[0] == 10 && i0[1] == seq[0]); }
+    if (!SEQONLY) {
+        const auto& ih = again.getRestartData<int>("INTEHEAD", s, 0); CHECK(ih.size() == 3 && ih[0] == 99 && ih[1] == s);
+        if (keep > 0) { const auto& i0 = again.getRestartData<int>("INTEHEAD", seq[0], 0); CHECK(i0[0] == 10 && i0[1] == seq[0]); }
+    }
 }
 
 // ---- a file cut short at ANY byte: every array either reads back exactly as written or an error is raised - never different data
